@@ -520,6 +520,79 @@ def _format_decoder(ctx, res, rule_id, dec, mod, n):
 
 # --------------------------------------------------------------- wellformed
 
+def search_contract(ctx, res):
+    """`_find_repeatable_block` evaluated (concrete data, listed scenarios):
+    whenever it reports a block of length >= 3 the block is a real earlier
+    occurrence inside the window the format can address:
+        1 <= offset <= min(pos, 3135),  length <= min(17, len - pos),
+        dat[pos - offset + k] == dat[pos + k]  for k < length.
+    Scenarios: every string over {a, b} up to length 5 at every position; a
+    run of 40 equal bytes (length bound); the only earlier occurrence exactly
+    at the window edge and one byte beyond it (offset bound).
+    -> (followed, [witness descriptions])   A clean result is "no witness",
+    not a proof; the statement-form rules carry the universal argument."""
+    import itertools
+    from ..absint import cx as CX
+    q = CZ + ':_find_repeatable_block'
+    f = ctx.model.func(q)
+    window = (255 - len(ref.C_TABLE) - 1) * ref.C_OFFSET_RADIX + 15
+    cases = []
+    for n in range(0, 6):
+        for t in itertools.product(b'ab', repeat=n):
+            for pos in range(0, n + 1):
+                cases.append((bytes(t), pos))
+    cases.append((b'a' * 40, 20))
+    cases.append((b'a' * 40, 1))
+    edge = (255 - len(ref.C_TABLE) - 1) * ref.C_OFFSET_RADIX
+    cases.append((b'abcd' + b'z' * (edge - 4) + b'abcd', edge))
+    cases.append((b'abcd' + b'z' * (edge - 3) + b'abcd', edge + 1))
+    cases.append((b'abcd' + b'z' * (window - 3) + b'abcd', window + 1))
+    bad = []
+    try:
+        for (dat, pos) in cases:
+            cxi = CX.Cx(ctx.model, ctx.consts)
+            cxi.budget = max(getattr(cxi, 'budget', 0), 5000000)
+            paths = cxi.explore(lambda: cxi.call_function(
+                f, [dat, pos], {}))
+            if len(paths) != 1 or paths[0][0]:
+                raise CX.CxError('forks on concrete data')
+            kind, val = paths[0][1]
+            tag = '{!r}{} at {}'.format(
+                dat[:12], '..({} bytes)'.format(len(dat)) if len(dat) > 12
+                else '', pos)
+            if kind == 'raise':
+                if pos < len(dat) or val.tname != 'IndexError':
+                    bad.append('{}: raises {}'.format(tag, val.tname))
+                continue
+            r = cxi.items(val)
+            if len(r) != 2 or any(CX.is_sym(x) for x in r):
+                raise CX.CxError('result is not a pair of numbers')
+            ln, off = r
+            if not isinstance(ln, int) or ln < 3:
+                continue
+            if not isinstance(off, int) or not 1 <= off <= min(pos, window):
+                bad.append('{}: reports length {} at offset {} -- outside '
+                           '1..min(pos, {})'.format(tag, ln, off, window))
+            elif ln > min(ref.C_MAX_LEN, len(dat) - pos):
+                bad.append('{}: reports length {} (max {}, {} bytes left)'
+                           .format(tag, ln, ref.C_MAX_LEN, len(dat) - pos))
+            elif any(dat[pos - off + k] != dat[pos + k] for k in range(ln)):
+                bad.append('{}: the {} bytes at offset {} are not the next '
+                           '{} bytes'.format(tag, ln, off, ln))
+    except AnalysisError as e:
+        res.info('R-C05-wellformed', q, 'search contract evaluated',
+                 'not followed: ' + str(e)[:120], f.loc)
+        return False, []
+    res.check(not bad, 'R-C05-wellformed', q,
+              'a reported block of length >= 3 is an earlier occurrence '
+              'inside the addressable window (evaluated)',
+              '{} (text, position) scenarios: no witness'.format(len(cases)),
+              '; '.join(bad[:3]) + (' (+{} more)'.format(len(bad) - 3)
+                                    if len(bad) > 3 else ''), f.loc,
+              semantic=True)
+    return True, bad
+
+
 def rule_wellformed(ctx, res):
     model, ev = ctx.model, ctx.consts
     mod = model.module(CZ)
@@ -535,6 +608,20 @@ def rule_wellformed(ctx, res):
                 consts[st.targets[0].id] = v
     mbl = consts.get('max_block_len')
     mhl = consts.get('max_hist_len')
+    followed, witnesses = search_contract(ctx, res)
+    # a statement form that differs from the pinned one is not a defect by
+    # itself: when the evaluated contract has no witness the shape rules
+    # below answer "cannot follow" instead of accusing
+    soft = followed and not witnesses
+    _check = res.check
+
+    def shape_check(cond, rule, where, inst, ok='', bad='', loc='', **kw):
+        if cond or not soft:
+            return _check(cond, rule, where, inst, ok, bad, loc, **kw)
+        return res.undecided(rule, where, inst,
+                             'statement form not recognised ({}); the '
+                             'evaluated search contract has no witness'
+                             .format(bad[:120]), loc)
     names_here = {x.id for x in walk_own(f.node) if isinstance(x, ast.Name)}
     if not {'max_block_len', 'max_hist_len', 'best_len', 'best_i'} <= \
             names_here:
@@ -559,7 +646,7 @@ def rule_wellformed(ctx, res):
     clamp_len = 'max_len=min(max_block_len,len(dat)-pos)' in src
     clamp_hist = 'max_hist_len=min(max_hist_len,pos)' in src
     start = 'i=pos-max_hist_len' in src
-    res.check(clamp_len and clamp_hist and start, 'R-C05-wellformed', q,
+    shape_check(clamp_len and clamp_hist and start, 'R-C05-wellformed', q,
               'search clamps: length <= min(17, remaining), window starts at '
               'pos - min(window, pos)', '',
               'clamps changed: length-clamp={} window-clamp={} '
@@ -593,21 +680,25 @@ def rule_wellformed(ctx, res):
             joint = pure_test and not upd[0].orelse and sorted(
                 ast.unparse(s).replace(' ', '') for s in upd[0].body) == \
                 ['best_i=i', 'best_len=j-i']
-    res.check(ok_outer and ok_inner and joint, 'R-C05-wellformed', q,
+    shape_check(ok_outer and ok_inner and joint, 'R-C05-wellformed', q,
               'match loop invariant 0 <= j - i <= max_len; best_len and '
               'best_i assigned together', '',
               'search loop shape changed: outer={} inner={} '
               'joint-update={}'.format(ok_outer, ok_inner, joint), f.loc)
-    res.check(no_overlap, 'R-C05-wellformed', q,
-              'matches never run into the text being encoded (j < pos)',
-              'length <= offset for every emitted reference',
-              'the `j < pos` bound is gone: the encoder emits overlapping '
-              'references (offset < length)', f.loc)
+    # the format allows offset < length (the decoder copies byte by byte, so a
+    # reference may run into the bytes it produces): whether the search stops
+    # at `pos` only affects the compression ratio -- noted, not demanded
+    res.info('R-C05-wellformed', q,
+             'matches {} run into the text being encoded'.format(
+                 'never' if no_overlap else 'may'),
+             'length <= offset for every emitted reference' if no_overlap
+             else 'overlapping references (offset < length) are emitted; '
+             'the format and the decoder (byte-wise copy) allow them', f.loc)
     rets = [r for r in walk_own(f.node) if isinstance(r, ast.Return)]
     off_ok = 'block_offset=pos-best_i' in src and len(rets) == 1 and \
         ast.unparse(rets[0].value).replace(' ', '').strip('()') == \
         'best_len,block_offset'
-    res.check(off_ok, 'R-C05-wellformed', q,
+    shape_check(off_ok, 'R-C05-wellformed', q,
               'offset = pos - best_i, returned with best_len', '',
               'returned offset / length expression changed', f.loc)
     # compress_code: block emitted iff block_len >= 3
